@@ -6,7 +6,9 @@ pub mod chain13;
 pub mod chainmc;
 pub mod chanfsm;
 pub mod ev;
+pub mod keysrel;
 pub mod kvvmc;
+pub mod macenum;
 pub mod monitors;
 pub mod nodemc;
 pub mod nodevel;
